@@ -24,7 +24,7 @@ ASSUMPTIONS = ['label vectors: labels 0..K-1 in temporal order, every label pres
 REQUIRED_CLASSES = ['stat:has-gap', 'stat:two-cycles', 'stat:cycle-resumes-after-gap', 'align:run', 'bin:empty-bin', 'bin:last-bin-used']
 EXPECTED_LABELS = ['stat-never-raises', 'stat-per-cycle', 'stat-samples-projection', 'align-never-raises', 'align-linear-exact',
                    'bin-never-raises', 'bin-means']
-BUDGET_S = {'quick': 150, 'thorough': 1500}
+BUDGET_S = {'quick': 150, 'thorough': 900}
 TWO_PI = 2 * math.pi
 
 FUNCS = {
@@ -145,7 +145,11 @@ def harness(h):
         h.observe('aligned', np.asarray(avg))
         want = np.empty((npnt, 2), dtype=object)
         for k in range(npnt):
-            want[k, 0] = want[k, 1] = float(centres[k]) * a + b
+            ck = float(centres[k])
+            if h.symbolic:
+                from symnp.core import lift
+                ck = lift(ck)      # exact rational value of the double: `a*centre+b` must not be rounded on the oracle side
+            want[k, 0] = want[k, 1] = ck * a + b
         h.check_eq(avg, want, 'align-linear-exact', (la, lb, npnt))
     else:
         N, nb = h.params['N'], h.params['nbins']
